@@ -222,6 +222,7 @@ func driverMain(args []string) {
 					total.Logical[k] += v
 				}
 				if o.MaxStepRatio > total.MaxStepRatio {
+					total.Worst = o.Worst
 					total.MaxStepRatio = o.MaxStepRatio
 				}
 				if len(o.SitesHit) > 0 {
@@ -408,6 +409,9 @@ func driverMain(args []string) {
 	}
 	if *prop == "C04" {
 		cov["max_steps_over_budget"] = total.MaxStepRatio
+		if total.Worst != nil {
+			cov["closest_to_step_budget"] = total.Worst
+		}
 		cov["step_budget"] = "B(n)=1024*(n+64)^2 yield steps per stage for an n-byte document"
 	}
 	if *prop == "C19" {
